@@ -11,7 +11,7 @@ from harness import calib, gen, models
 from harness.common import Ctx, drive, guard, watchdog
 
 RULE = ("Hypothesis draws (a) a round-robin line-up of 1-6 cheap samplers and a history of calibrate(n) / checkpoint-restore "
-        "operations, (b) an RL scheduler over 2-4 samplers (Halton present or absent) with a scripted or epsilon-greedy agent "
+        "operations (and batches whose simulation fails and is therefore not recorded), (b) an RL scheduler over 2-4 samplers (Halton present or absent) with a scripted or epsilon-greedy agent "
         "and 1-3 calibrate(n) sessions, (c) the four samplers/scheduler constructor-argument combinations. BaseSampler.sample is "
         "wrapped at class level (survives restore) to log which object produced each batch. Non-trivial = >= 2 calibrate calls "
         "or a restore, with a total batch count that is not a multiple of the line-up length (a) / >= 3 batches (b).")
@@ -49,7 +49,8 @@ def base_cfg(draw, lineup):
 def rr_cases(draw):
     n = draw(st.integers(1, 6))
     lineup = draw(gen.lineup_spec(kinds=KINDS, min_len=n, max_len=n, max_bs=6))
-    ops = draw(st.lists(st.one_of(st.tuples(st.just("calibrate"), st.integers(1, 5)), st.tuples(st.just("restore"))),
+    ops = draw(st.lists(st.one_of(st.tuples(st.just("calibrate"), st.integers(1, 5)), st.tuples(st.just("restore")),
+                                  st.tuples(st.just("calibrate"), st.integers(1, 5)), st.tuples(st.just("failing_batch"))),
                         min_size=1, max_size=6))
     ops = [list(o) for o in ops]
     if ops[0][0] != "calibrate":
@@ -66,18 +67,43 @@ def check_rr(ctx: Ctx, case):
     total = sum(o[1] for o in ops if o[0] == "calibrate")
     ncal = sum(1 for o in ops if o[0] == "calibrate")
     nrest = sum(1 for o in ops if o[0] == "restore")
-    ctx.count(sub, case, (ncal >= 2 or nrest >= 1) and total % n != 0, [f"n={n}", f"restores={min(nrest, 2)}"])
+    ctx.count(sub, case, (ncal >= 2 or nrest >= 1) and total % n != 0, [f"n={n}", f"restores={min(nrest, 2)}"] +
+              (["failing-batch"] if any(o[0] == "failing_batch" for o in ops) else []))
     folder = tempfile.mkdtemp(prefix="c09-")
-    model = models.get(cfg["model"], cfg["D"])
+    pure = models.get(cfg["model"], cfg["D"])
+    flag = {"fail": False}
+
+    class Boom(Exception):
+        pass
+
+    def model(theta, nn, seed):
+        if flag["fail"]:
+            raise Boom("model failure injected by the harness")
+        return pure(theta, nn, seed)
+    model.__name__ = pure.__name__
+    nfail = sum(1 for o in ops if o[0] == "failing_batch")
     try:
         with Logger() as lg, guard(ctx, "C09/exception", sub, case):
-            cal = calib.build(cfg, saving_folder=folder)
+            cal = calib.build(cfg, saving_folder=folder, model=model)
             sizes = [s.batch_size for s in cal.scheduler.samplers]
             classes = [type(s).__name__ for s in cal.scheduler.samplers]
             done = 0
             for op in ops:
                 if op[0] == "restore":
-                    cal = Calibrator.restore_from_checkpoint(folder, model)
+                    if done:
+                        cal = Calibrator.restore_from_checkpoint(folder, model)
+                    continue
+                if op[0] == "failing_batch":
+                    # a batch whose simulation fails is never recorded: it does not count, and it is still that sampler's turn
+                    before = len(lg.log)
+                    flag["fail"] = True
+                    try:
+                        cal.calibrate(1)
+                    except Boom:
+                        pass
+                    finally:
+                        flag["fail"] = False
+                    del lg.log[before:]
                     continue
                 before = len(lg.log)
                 cal.calibrate(op[1])
